@@ -168,7 +168,15 @@ def q_ufb(ex, args, kwargs):
     return mk_bytes(units[0] if n == 1 else z3.Concat(*units))
 
 
+def q_same(ex, args, kwargs):
+    import ast
+
+    a, b = args
+    return ex.compare_op(ast.Is(), a, b)
+
+
 SPEC_FORMS = {
+    C.same: q_same,
     C.ufb: q_ufb,
     C.uf: q_uf,
     C.mhas: q_mhas,
